@@ -96,7 +96,29 @@ def run(ctx):
                 hits[c2] = hits.get(c2, 0) + 1
             else:
                 unexpl.append(({"name": "Content-Disposition", "value": cl_[k]}, det))
-    ctx.cov["correspondence"] = {"hdr.value": {"cases": len(recs), "disagreements": len(diffs), "exhaustive_alphabet": GH.ATOMS, "exhaustive_maxlen": maxlen, "name_lengths": "1..76 x %d alignment values" % len(align_vals)},
+    # one field per name, whatever the letter case of later set calls (header map operations)
+    hn = ["Subject", "subject", "SUBJECT", "sUBJECT", "X-Priority", "x-priority", "X-priority", "Date", "date", "Message-ID", "Message-Id"]
+    ol = []
+    for _ in range(300 if ctx.tier == "quick" else 5000):
+        ops = []
+        for _ in range(rng.randint(1, 25)):
+            n = rng.choice(hn)
+            if rng.random() < 0.7:
+                ops.append("set,%s,%s" % (hx(U(n)), hx(U(rng.choice(["v", "w w", "é", "a\r\nb"])))))
+            else:
+                ops.append(("remove," if rng.random() < 0.5 else "get,") + hx(U(n)))
+        ol.append("hdrs.ops\t" + ";".join(ops))
+    oi, om = run_impl(ol), run_model(ol)
+    ctx.count(len(ol))
+    odiff = [k for k in range(len(ol)) if oi[k] != om[k]]
+    for k, o in enumerate(oi):
+        f = o.split("\t")
+        if len(f) == 2:
+            block = unhx(f[1])
+            fields = [l.split(b":")[0].lower() for l in block.split(b"\r\n") if l and not l.startswith((b" ", b"\t"))]
+            if len(fields) != len(set(fields)):
+                unexpl.append(({"name": "Headers", "value": ol[k][:300]}, "two fields with the same name (case-insensitively) in one header section: %r" % fields))
+    ctx.cov["correspondence"] = {"hdrs.ops": {"sequences": len(ol), "disagreements": len(odiff)}, "hdr.value": {"cases": len(recs), "disagreements": len(diffs), "exhaustive_alphabet": GH.ATOMS, "exhaustive_maxlen": maxlen, "name_lengths": "1..76 x %d alignment values" % len(align_vals)},
                                  "hdr.name": {"cases": len(nl), "disagreements": len(ndiff)}, "hdr.mailboxes": {"cases": len(ml), "disagreements": len(mdiff)}, "hdr.cdisp": {"cases": len(cl_), "disagreements": len(cdiff)}}
     ctx.cov["oracle"] = {"rfc5322_field_splitter_and_line_judge_on_impl": {"cases": len(ok_recs) + len(mok) + len(ci), "unexplained": len(unexpl), "known_class_hits": dict(hits)},
                          "header_name_iff_ftext": {"cases": len(nstrs), "failures": len(nbad)}}
@@ -112,6 +134,8 @@ def run(ctx):
         ctx.violation({"kind": "oracle", "entry": "header encoding", "name": r.get("name"), "value_hex": hx(U(r.get("value", ""))) if isinstance(r.get("value"), str) else None, "value": str(r.get("value"))[:300], "what": det, "impl": str(r.get("impl", ""))[:600], "failures": len(unexpl)})
     if nbad:
         ctx.violation({"kind": "oracle", "entry": "HeaderName::new_from_ascii", "name_hex": hx(U(nbad[0])), "what": "accepted iff printable ASCII without ':' (RFC 5322 ftext) is violated", "failures": len(nbad)})
+    if odiff and not ctx.violations:
+        ctx.violation({"kind": "correspondence", "fn": "hdrs.ops", "line": ol[odiff[0]][:600], "impl": oi[odiff[0]][:300], "model": om[odiff[0]][:300]}, nofail=True)
     if (diffs or ndiff or mdiff or cdiff) and not ctx.violations:
         if diffs:
             r = min(diffs, key=lambda r: len(r["value"]))
